@@ -16,7 +16,8 @@ HAS_INFO = {"instantiate", "execute"}
 THEOREMS = ["c06_override_names", "c06_entry_point_set", "c06_override_independent",
             "c06_body_independent_of_overrides", "c06_no_duplicates", "c06_names_are_cosmwasm",
             "c06_forwarding", "c06_reply_forwarding"]
-THEOREMS_T = ["c06_translated_entry_point_set", "c06_translated_override_lookup"]
+THEOREMS_T = ["c06_translated_entry_point_set", "c06_translated_override_lookup",
+              "c06_translated_default_entry_point_forwards_its_own_kind"]
 
 
 def make_case(overrides, has_inst, has_migrate, reply_fn, replies, generic, given=None, order=None, more_replies=0):
